@@ -29,6 +29,7 @@ func c13(c *Ctx) {
 	verifyCommitRule(c, "R6")
 	requesterGuardRule(c, "R7")
 	fastSyncHandoverRule(c, "R8")
+	quorumRule(c, "R9")
 }
 
 func c13R1(c *Ctx) {
